@@ -265,11 +265,18 @@ func (m *mappers) ToCharGroup(r comb.Result) (comb.Result, bool) {
 
 	items := r2.Val.(comb.List)
 
+	var others []rune
+	seen := make(map[rune]bool)
 	charMap := make([]bool, len(parser.RuneClasses["ASCII"].Runes()))
 	for _, r := range items {
 		if chars, ok := r.Bag[bagKeyChars].([]rune); ok {
 			for _, c := range chars {
-				charMap[c] = true
+				if int(c) < len(charMap) {
+					charMap[c] = true
+				} else if !seen[c] {
+					seen[c] = true
+					others = append(others, c)
+				}
 			}
 		}
 	}
@@ -278,6 +285,13 @@ func (m *mappers) ToCharGroup(r comb.Result) (comb.Result, bool) {
 	for i, marked := range charMap {
 		if (!neg && marked) || (neg && !marked) {
 			nfa.Add(0, auto.Symbol(rune(i)), []auto.State{1})
+		}
+	}
+
+	// Characters outside of the ASCII table can only be matched by a non-negated group.
+	if !neg {
+		for _, c := range others {
+			nfa.Add(0, auto.Symbol(c), []auto.State{1})
 		}
 	}
 
